@@ -41,11 +41,13 @@ def zone_job(a):
     res = {"zone": zone, "db": db, "fails": [], "evaluations": 0, "nontrivial": 0, "hist": {}, "samples": [],
            "harness": None}
     try:
-        ora = tzoracle.ZoneOracle(os.path.join(odir, zone), sweeplib.T0, sweeplib.T1, zone)
+        # the oracle covers three more days on either side: local date-times of the first and last days of the supported
+        # years are instants just outside [2000, 2050) UTC for zones east / west of Greenwich
+        ora = tzoracle.ZoneOracle(os.path.join(odir, zone), sweeplib.T0 - 3 * DAY, sweeplib.T1 + 3 * DAY, zone)
     except vt.HarnessError as e:
         res["harness"] = str(e)
         return res
-    lo_lim, hi_lim = sweeplib.T0 + 2 * DAY, sweeplib.T1 - 2 * DAY
+    lo_lim, hi_lim = sweeplib.T0, sweeplib.T1 - 1      # wall clock 2000-01-01T00:00:00 .. 2049-12-31T23:59:59
     wins = []   # (lo, hi, step)
     trans = ora.transitions()
     if a.get("only_window"):
@@ -61,9 +63,14 @@ def zone_job(a):
             if tier == "thorough":
                 wins.append((edge - 3600, edge + 3600, 1))
     if not a.get("only_window"):
-        for y in range(2001, 2050):
+        for y in range(2000, 2051):
             t = tzoracle.t_of(y)
             wins.append((t - DAY, t + DAY - 60, 60))
+        # the first and the last two days of the supported years, every minute, and their outermost seconds
+        wins.append((lo_lim, lo_lim + 2 * DAY, 60))
+        wins.append((hi_lim - 2 * DAY, hi_lim, 60))
+        wins.append((lo_lim, lo_lim + 61, 1))
+        wins.append((hi_lim - 61, hi_lim, 1))
         rnd = random.Random("%s/%s/%d" % (zone, db, seed))
         for _ in range(5000 if tier == "thorough" else 500):
             w = rnd.randrange(lo_lim, hi_lim)
@@ -161,7 +168,7 @@ def zone_job(a):
 def run(ctx):
     ctx.assumptions = [
         "occurrence sets are computed from the zic oracle function alone (zic+zdump+zoneinfo, cross-checked)",
-        "supported years for wall times: 2000-01-03 .. 2049-12-29 (two days inside the zone data range)",
+        "supported years for wall times: 2000-01-01T00:00:00 .. 2049-12-31T23:59:59 local (the oracle extends three days beyond on either side)",
     ]
     exe = sweeplib.build_sweep("C07")
     jobs = []
